@@ -8,7 +8,10 @@
 # usage: tools/iso.sh <command> [args...]        (cwd inside: /verif)
 set -u
 D=$(mktemp -d /tmp/iso-XXXXXX)
-cp -a /repo "$D/repo" && cp -a /verif "$D/verif" || { rm -rf "$D"; exit 2; }
+cp -a /repo "$D/repo" || { rm -rf "$D"; exit 2; }
+# (the real /verif may be building at this moment: files that vanish while being copied are fine)
+rsync -a --exclude 'incremental' --exclude 'target/tmp' --exclude 'target/iso-*' /verif/ "$D/verif/"; rc=$?
+if [ $rc -ne 0 ] && [ $rc -ne 24 ]; then echo "iso: copying /verif failed ($rc)" >&2; rm -rf "$D"; exit 2; fi
 git -C "$D/repo" worktree prune >/dev/null 2>&1
 unshare -m bash -c '
   D=$1; shift
